@@ -293,8 +293,19 @@ func (o *ovsdbClient) connect(ctx context.Context, reconnect bool) error {
 				continue
 			}
 
-			// Restart all monitors; each monitor will handle purging
-			// the cache if necessary
+			// With several monitors each restart brings the complete contents
+			// of its own tables: purge the cache once, before any of them is
+			// applied. Purging on every restart would throw away what the
+			// monitors restarted before it have just brought in. A single
+			// monitor handles purging itself since it may resume from its
+			// last transaction ID.
+			if len(db.monitors) > 1 {
+				db.cacheMutex.Lock()
+				db.cache.Purge(db.model)
+				db.cacheMutex.Unlock()
+			}
+
+			// Restart all monitors
 			for id, request := range db.monitors {
 				err := o.monitor(ctx, MonitorCookie{DatabaseName: dbName, ID: id}, true, request)
 				if err != nil {
@@ -1052,7 +1063,7 @@ func (o *ovsdbClient) monitor(ctx context.Context, cookie MonitorCookie, reconne
 	// server. In this case the reply contains only updates to the existing
 	// cache data, while otherwise it includes complete DB data so we must
 	// purge to get rid of old rows.
-	if reconnecting && (len(db.monitors) > 1 || !lastTransactionFound) {
+	if reconnecting && len(db.monitors) == 1 && !lastTransactionFound {
 		db.cache.Purge(db.model)
 	}
 
